@@ -57,7 +57,7 @@ FILENAMES = ['a.c', 'b.c', 'ab.c', 'a.h', 'b.h', 'x.txt', '.hid', 'bak~',
              'README', 'c.cpp', 'lib', 'src']
 GLOBCOMPS = ['*', '*', '*.c', '*.h', '?', 'a*', '*b*', '[ab]', '[ab].c',
              '[!a]*', '*.[ch]', '??.c', '[a-c].h', 's*', '*.*', '[!.]*',
-             'l?b', '*~']
+             'l?b', '*~', 'a*a', 'li*ib', 'ab*b.c', 's*src', 'a*.c']
 SIMPLE = ['*.h', '*.txt', 'b*', 'lib', 'lib/', 'sub/', '?', '[ab].c', '.hid',
           'inc/', 'a*', '*.c', 'src/', '*', '*/', 'a b/', 'x.d/', '*~',
           '[!a]*']
@@ -596,13 +596,14 @@ def _prop_find(rec):
             if case['filter'] == 'platform':
                 filter_fn = ctx['filter_by_platform']
             elif case['filter'] == 'table':
-                table = case['table']
-
-                def filter_fn(path):
-                    r = table.get(path.basename(), 'include')
-                    if r == 'exclude_recursive' and not path.directory:
-                        r = 'exclude'
-                    return FindResult[r]
+                def make_filter(table):
+                    def filter_fn(path):
+                        r = table.get(path.basename(), 'include')
+                        if r == 'exclude_recursive' and not path.directory:
+                            r = 'exclude'
+                        return FindResult[r]
+                    return filter_fn
+                filter_fn = make_filter(case['table'])
                 # model: exclude_recursive only applies to directories
             pat = case['patterns']
             if len(pat) == 1 and case['single_str']:
@@ -687,6 +688,22 @@ def _prop_find(rec):
                                 'different set'.format(not case['cache']),
                                 case)
             check_dist('after all calls')
+            if case['filter'] == 'table':
+                # a second predicate made by the same factory (same name,
+                # different behaviour) must not be served from the first
+                # one's cache entry
+                class _All(dict):
+                    def get(self, k, d=None):
+                        return 'exclude'
+                none = as_set(ctx['find_paths'](pat, **dict(
+                    kwargs, filter=make_filter(_All()), cache=True)),
+                    'find_paths')
+                if none:
+                    raise Violation('find/cache-confuses-filters', 'a filter '
+                                    'that excludes everything returned {!r} '
+                                    '(results of the other filter function?)'
+                                    .format(sorted('/'.join(c)
+                                                   for c in none)), case)
             # extras are never returned and every cached extra is sound
             cache = build['find_cache']
             for flt, ent in cache.items():
